@@ -191,7 +191,7 @@ Definition h3_events (parts : list bytes) : list h3ev :=
 
 Definition h3err_clean (e : h3err) : bool := match e with H3Clean => true | _ => false end.
 
-Definition h3_exchange (is_head : bool) (heads : list h3head) (parts : list bytes)
+Definition h3_exchange_evs (is_head : bool) (heads : list h3head) (evs : list h3ev)
     (trailers : option (list mfield)) (m : mode) (sizes : list nat) : option mux_delivery :=
   match h3_final heads 0 with
   | None => None
@@ -203,7 +203,7 @@ Definition h3_exchange (is_head : bool) (heads : list h3head) (parts : list byte
           let cl := if ((100 <=? code)%Z && (code <? 200)%Z || (code =? 204)%Z) && (cl0 =? -1)%Z
                     then 0%Z else cl0 in
           let rem := if (body_len <? 0)%Z then None else Some (Z.to_N body_len) in
-          let '(d, e) := h3_read true rem (h3_events parts) in
+          let '(d, e) := h3_read true rem evs in
           let rd := {| rd_rem := d; rd_end := if h3err_clean e then BEof else BFail |} in
           let tr := match trailers with
                     | Some tfs => if h3err_clean e then add_all tfs else declared
@@ -213,6 +213,16 @@ Definition h3_exchange (is_head : bool) (heads : list h3head) (parts : list byte
                   m_api := run_mode m code sizes rd |}
       end
   end.
+
+Definition h3_exchange (is_head : bool) (heads : list h3head) (parts : list bytes)
+    (trailers : option (list mfield)) (m : mode) (sizes : list nat) : option mux_delivery :=
+  h3_exchange_evs is_head heads (h3_events parts) trailers m sizes.
+
+(* a stream that ends (FIN) inside a DATA frame: complete frames, then a frame announcing
+   [declared] bytes of which only [partial] arrived, then FIN - whether the FIN reached the client
+   together with the partial data or later makes no difference to what must be reported *)
+Definition h3_events_cut (parts : list bytes) (declared : N) (partial : bytes) : list h3ev :=
+  map (fun p => H3Data (N.of_nat (length p)) p) parts ++ [H3Data declared partial; H3Fin].
 
 (* ---------------- several streams on one HTTP/2 connection ---------------- *)
 (* What the peer sends on the connection: frames of the individual response streams, in any
